@@ -139,4 +139,26 @@ end OutcomeS
 @[simp] theorem OutcomeS.run_bind_putRecv {σ β : Type} (s' : σ) (f : Unit → OutcomeS σ β) (s : σ) :
     (putRecv s' >>= f).run s = (f ()).run s' := rfl
 
+/-! #### handler glue (Gen/LoopsNaming.lean) -/
+
+/-- `v := m[k]` (the zero value `d` when absent) -/
+def mapGetD {κ ν : Type} [DecidableEq κ] (m : GMap κ ν) (k : κ) (d : ν) : ν := (mapGet? m k).getD d
+
+/-- the value stored under `k`, if any, replaced by `f` of it (keys and order unchanged) -/
+def mapAdjust {κ ν : Type} [DecidableEq κ] (m : GMap κ ν) (k : κ) (f : ν → ν) : GMap κ ν :=
+  m.map (fun l => l.map (fun kv => if kv.1 = k then (kv.1, f kv.2) else kv))
+
+/-- the receiver as it is now -/
+@[inline] def getRecv {σ : Type} : OutcomeS σ σ := fun s => (s, .ok s)
+
+/-- a pointer-receiver method `x` run on a LOCAL struct `e` inside a computation over the receiver `σ`: the local's final
+    state `e'` — also when the method fails — is handed to `wb`, which writes it to wherever the local's reference
+    fields are shared (the identity when they are not); the results are the local's final state and the method's -/
+def onLocal {σ τ α : Type} (e : τ) (wb : τ → σ → σ) (x : OutcomeS τ α) : OutcomeS σ (τ × α) := fun s =>
+  match x e with
+  | (e', .ok a) => (wb e' s, .ok (e', a))
+  | (e', .err er) => (wb e' s, .err er)
+  | (e', .panic) => (wb e' s, .panic)
+  | (e', .hang) => (wb e' s, .hang)
+
 end PV.Model.LoopGoDns
